@@ -1,9 +1,11 @@
 package main
 
 import (
+	"fmt"
 	"io"
 	"math/rand"
 	"net"
+	"strconv"
 	"strings"
 	"sync"
 
@@ -121,6 +123,10 @@ func streamC06(env *runEnv) {
 		jobs = append(jobs, job{bodies, [][]byte{p}, "boundary"})
 		jobs = append(jobs, job{[][]byte{dataBody(p), dataBody(randBytes(r, 3))}, [][]byte{p, randBytes(r, 5), p}, "boundary"})
 	}
+	// host writes larger than any relay buffer the 16-bit length field could describe
+	for _, s := range []int{65536, 65537, 70000, 131072, 200000} {
+		jobs = append(jobs, job{nil, [][]byte{randBytes(r, s)}, "hostburst"})
+	}
 	// all byte values
 	all := make([]byte, 256)
 	for i := range all {
@@ -175,4 +181,44 @@ func streamC06(env *runEnv) {
 		env.count("c06." + j.tag)
 		env.emit("relay", listHex(j.bodies), listHex(j.writes), obs)
 	})
+}
+
+// c06proc: client-to-host bytes through the real packet loop: a full exchange
+// followed by hundreds of back-to-back DATA packets; what the host receives must
+// be the payloads in the order sent (process kind: compared with the processor
+// model, which delivers them in order).
+func init() { streams["c06proc"] = streamC06Proc }
+
+func streamC06Proc(env *runEnv) {
+	r := rand.New(rand.NewSource(env.seed + 6))
+	e := newL1Env(1)
+	runs := 4
+	if env.thorough() {
+		runs = 40
+	}
+	all := [4]bool{true, true, true, true}
+	for i := 0; i < runs; i++ {
+		cfg := procCfg{hostCb: true}
+		items := []item{
+			{data: packet(ptHandshake, handshakeBody(1, 0, 0, 0)), ans: all},
+			{data: packet(ptTunnelCreate, tunnelCreateBody(0, "", false)), ans: all},
+			{data: packet(ptTunnelAuth, tunnelAuthBody("pc")), ans: all},
+			{data: packet(ptChannelCreate, channelCreateBody("127.0.0.1", e.pool[0].port)), ans: all},
+		}
+		n := 200 + r.Intn(400)
+		for k := 0; k < n; k++ {
+			p := []byte(fmt.Sprintf("<%d:%d>", i, k))
+			if k%37 == 0 {
+				p = append(p, randBytes(r, r.Intn(3000))...)
+			}
+			items = append(items, item{data: packet(ptData, dataBody(p)), ans: all})
+			if k%50 == 49 {
+				items = append(items, item{data: packet(ptKeepalive, nil), ans: all})
+			}
+		}
+		items = append(items, item{data: packet(ptCloseChannel, nil), ans: all}, item{eof: true})
+		res := e.runProcess(cfg, items)
+		env.count("c06proc.runs")
+		env.emit("procrelay", cfg.bits(), redirBits(cfg.redir), strconv.Itoa(cfg.idle), e.live(), itemsString(items), res.obs)
+	}
 }
